@@ -118,7 +118,7 @@ def judge_repr(ctx, case, a, A):
 
 
 def run(ctx):
-    size = 400 if ctx.quick else 1500
+    size = 400 if ctx.quick else 3000
     specs = pool_specs(ctx.rng.__class__(ctx.seed), size)
     values = [obs.build(s) for s in specs]
     ctx.notes["pool_size"] = len(values)
@@ -142,7 +142,7 @@ def run(ctx):
             judge_repr(ctx, {"kind": "repr", "a": specs[i]}, a, obs.spec_cells(specs[i]))
             ctx.count("reprs")
     rng = ctx.rng
-    for _ in range(ctx.share(2000 if ctx.quick else 100000)):
+    for _ in range(ctx.share(2000 if ctx.quick else 500000)):
         spec = obs.rand_spec(rng, 4, 3, ["a", "b", "'", '"', "\\", "\n", "一", " ", "\t"])
         if spec:
             judge_repr(ctx, {"kind": "repr", "a": spec}, obs.build(spec), obs.spec_cells(spec))
